@@ -44,3 +44,14 @@ CHECKS["C07"] = dict(_LIBMEM,
     bound=dict(quick="16 scenarios, all sequences to depth 4", thorough="22 scenarios, all sequences to depth 5"),
     stages=[dict(pkg="./pkg/resmgr/lib/memory", run="TestVerifC07", shards=16)],
 )
+
+CHECKS["C16"] = dict(
+    level="exploration", engine="inputx",
+    technique="exhaustive enumeration of a generated machine family; discovery judged against the generator's record, pool tree judged against structural rules",
+    rule="every machine of the family packages{1,2,4} x dies{1,2} x NUMA/die{1,2} x cores{1,2(,3)} x threads{1,2} x 14 variants "
+         "(HT numbering, offline/isolated CPUs, CPU-less PMEM/HBM nodes, memory-less and movable-only nodes, cache sharing patterns, hybrid cores, cpufreq); "
+         "non-trivial = machines with at least one irregularity (extra nodes, offline/isolated CPUs, memory-less node, hybrid cores)",
+    bound=dict(quick="~500 machines, every accessor the property lists compared with the generator record", thorough="~800 machines"),
+    assumptions=["sysfs model: node ids contiguous from 0, an offline CPU keeps its nodeN link but has no topology directory, node cpulist lists online CPUs only"],
+    stages=[dict(pkg="./pkg/sysfs", run="TestVerifC16Discovery", shards=16)],
+)
